@@ -192,13 +192,15 @@ def _run_rows(r, cat, kinds, outs, focus, thorough):
             ck = (cfg["g"], cfg["m"], cfg["p"], cfg["pr"])
             # design verdict for this row (guards mutually exclusive, as the catalogue expects)
             design_ok = rrow["ok1"] if focus == "routing" else rrow["ok2"]
+            # documented variants of the stanza (optional attributes present / absent, group forms, ...) in turn, the default shape first
+            variants = [None] + (list(kind.variants) if kind.direction == "in" else [])
             for enc in (False, True):
-                for d in range(draws):
+                for d in range(max(draws, len(variants))):
                     rig = rigs.get((ck, enc))
                     if rig is None:
                         rig = rigs[(ck, enc)] = Rig(cfg, enc)
                     rig.poisoned = False
-                    check_row(r, cat, kind, row, rrow, rig, enc, random.Random(core.seed() * 7 + ki * 31 + d), focus, design_ok)
+                    check_row(r, cat, kind, row, rrow, rig, enc, random.Random(core.seed() * 7 + ki * 31 + d), focus, design_ok, variant=variants[d % len(variants)])
                     if kind.name in ALSO_SOLICITED and not rig.poisoned:
                         check_row(r, cat, kind, row, rrow, rig, enc, random.Random(core.seed() * 7 + ki * 31 + d + 1000), focus, design_ok,
                                   solicit=ALSO_SOLICITED[kind.name])
@@ -299,7 +301,7 @@ def ping_collisions(r, cat, rigs, rng):
 ALSO_SOLICITED = {"in.iq.result.sync": "out.iq.sync.get"}
 
 
-def check_row(r, cat, kind, row, rrow, rig, enc, rng, focus, design_ok, solicit=None):
+def check_row(r, cat, kind, row, rrow, rig, enc, rng, focus, design_ok, solicit=None, variant=None):
     cfgname = "".join(k for k, v in sorted(rrow["cfg"].items()) if v) or "-"
     label = (kind.name, cfgname, enc)
     r.case(label + (rng.random(),))
@@ -316,7 +318,7 @@ def check_row(r, cat, kind, row, rrow, rig, enc, rng, focus, design_ok, solicit=
             if kind.solicited_by or solicit:
                 sk = cat.BY_NAME[kind.solicited_by or solicit]
                 req = sk.make_entity(rng)
-                node = kind.make_node(rng, request=req)
+                node = kind.make_node(rng, variant=variant, request=req)
                 # every third solicited reply arrives while the request is still being written (loopback / very fast peer, or the
                 # writing thread preempted right after the write): the routing is that of request-then-reply
                 inline = rng.random() < 0.34
@@ -342,7 +344,7 @@ def check_row(r, cat, kind, row, rrow, rig, enc, rng, focus, design_ok, solicit=
                 rig.bottom.down[:] = [d for d in rig.bottom.down if not (d.tag == "iq" and d["id"] == req.getId() and d["type"] not in ("result", "error"))] if inline else []
                 del rig.enc_entered[:]
             else:
-                node = kind.make_node(rng)
+                node = kind.make_node(rng, variant=variant)
             want_react = kind.reaction(node) if kind.reaction is not None else []
             copy_before = node.__str__()
             if not inline:
@@ -372,7 +374,9 @@ def check_row(r, cat, kind, row, rrow, rig, enc, rng, focus, design_ok, solicit=
                                     {"kind": kind.name, "cfg": rrow["cfg"], "enc": enc})
                         return
                     try:
-                        diffs, _ = cat.node_diff(e.toProtocolTreeNode(), node) if "only count/class are compared" not in (kind.notes or "") else ([], [])
+                        # the stanza's fields are compared for the default shape; for the other variants count and class (their
+                        # field-level fidelity is C09's subject, including its recorded findings)
+                        diffs, _ = cat.node_diff(e.toProtocolTreeNode(), node) if ("only count/class are compared" not in (kind.notes or "") and variant is None) else ([], [])
                         # C06 asks that the entity carries the stanza's fields; attributes the serialisation ADDS
                         # (defaults made explicit) are C09's subject, not a routing failure
                         diffs = [x for x in diffs if not x.endswith(" added")]
